@@ -113,7 +113,7 @@ def outputs(det, kind, X, c, is_ref):
 def impl_det(c):
     vals = base_values(c)
     prm = {"scale": c["scale"], "m": c["m"]}
-    if c["kind"] in ("capa", "mvcapa"):
+    if c["kind"] in ("capa", "mvcapa") and not c.get("quiet"):  # (a quiet series is only quiet relative to the default saving's baseline)
         prm["saving"] = [None, "gvar", "gcov"][c["seed"] % 3]
     try:
         ref = outputs(mk_det(c["kind"], prm), c["kind"], wrap(vals, c, "frame", "range", "default", "float"), c, True)
